@@ -476,7 +476,12 @@ class Expander(object):
                 actual[p] = defaults[p]
                 order.append(p)
         # capture-avoiding renaming of the helper's own names
-        taken = _names(caller)
+        # (names that earlier expansions of this round brought into the
+        # caller count as taken too: every instance of a helper gets locals of
+        # its own, two instances never share a variable)
+        intro = self.__dict__.setdefault("_introduced", {}).setdefault(
+            id(caller), set())
+        taken = _names(caller) | intro
         mp = {}
         allp = set(params + kwonly)
         for n in sorted(_bound(fn)):
@@ -494,6 +499,8 @@ class Expander(object):
                     continue
                 self.counter += 1
                 mp[n] = "%s__%s%d" % (n, fn.name.strip("_"), self.counter)
+        intro.update(mp.get(n, n) for n in _bound(fn)
+                     if not (drop_self and n == "self"))
         body = [copy.deepcopy(s) for s in fn.body]
         if body and isinstance(body[0], ast.Expr) and \
                 isinstance(body[0].value, ast.Constant) and \
@@ -518,6 +525,18 @@ class Expander(object):
                 if isinstance(a, ast.Name) and a.id == p and \
                         (p in target_names or _dead_after(caller, call, p)):
                     keep.add(p)
+                elif isinstance(a, ast.Name) and a.id != p and \
+                        a.id not in _bound(fn) and \
+                        sum(1 for q2 in order if isinstance(actual[q2], ast.Name)
+                            and actual[q2].id == a.id) == 1 and \
+                        (a.id in target_names or
+                         _dead_after(caller, call, a.id)):
+                    # ... or work directly on the caller's variable under the
+                    # caller's name, when the helper has no name like it and
+                    # the variable is overwritten by the result / dead after
+                    # (other actuals that read it are evaluated into their own
+                    # parameters before the body runs)
+                    mp[p] = a.id
                 continue
             if isinstance(a, ast.Constant):
                 subst[p] = a
